@@ -226,6 +226,174 @@ def class_instances():
     return out
 
 
+# ----------------------------------------------------------------------------- runtime writes to shared state
+MUTABLE_CTORS = {"list", "dict", "set", "deque", "defaultdict", "OrderedDict", "Counter", "collections.deque"}
+
+
+def _is_mutable_value(v):
+    if isinstance(v, (ast.List, ast.Dict, ast.Set, ast.ListComp, ast.DictComp, ast.SetComp)):
+        return True
+    if isinstance(v, ast.Call):
+        name = ast.unparse(v.func)
+        return name in MUTABLE_CTORS or (name.split(".")[-1][:1].isupper())  # an instance of some class
+    return False
+
+
+def package_inventory():
+    """names of all classes, of mutable class-level attributes and of mutable module-level names in montepy/"""
+    classes, class_mut, module_mut = set(), set(), {}
+    for path in py_files():
+        tree = parse(path)
+        mm = set()
+        for st in tree.body:
+            if isinstance(st, (ast.Assign, ast.AnnAssign)) and st.value is not None and _is_mutable_value(st.value):
+                for t in st.targets if isinstance(st, ast.Assign) else [st.target]:
+                    if isinstance(t, ast.Name):
+                        mm.add(t.id)
+        module_mut[path] = mm
+        for node in ast.walk(tree):
+            if isinstance(node, ast.ClassDef):
+                classes.add(node.name)
+                for st in node.body:
+                    if isinstance(st, (ast.Assign, ast.AnnAssign)) and st.value is not None and _is_mutable_value(st.value):
+                        for t in st.targets if isinstance(st, ast.Assign) else [st.target]:
+                            if isinstance(t, ast.Name):
+                                class_mut.add(t.id)
+    return classes, class_mut, module_mut
+
+
+def runtime_shared_writes():
+    """every statement inside a function body of montepy/ that writes state shared by the whole process:
+    (file, kind, target text).  Kinds: class-attr-rebind / class-attr-del (`ClassName.x = `, `cls.x = `,
+    `type(self).x = `, `self.__class__.x = `, augmented, `del`), setattr / delattr on a class or module,
+    module-attr-rebind (`module.x = `), global-rebind / nonlocal-rebind (assignment to a name declared `global` /
+    `nonlocal`: the latter is process-wide when the enclosing function is a decorator factory), item-store and
+    mutating-call on a class attribute (also reached through `self.` when the attribute is a mutable class-level
+    one) or on a module-level mutable name."""
+    classes, class_mut, module_mut = package_inventory()
+    all_module_mut = set().union(*module_mut.values()) if module_mut else set()
+    out = []
+
+    for path in py_files():
+        rel = os.path.relpath(path, REPO)
+        tree = parse(path)
+        modules = set()  # names bound to modules in this file
+        imported_names = set()
+        for node in ast.walk(tree):
+            if isinstance(node, ast.Import):
+                for a in node.names:
+                    modules.add((a.asname or a.name).split(".")[0])
+            elif isinstance(node, ast.ImportFrom):
+                for a in node.names:
+                    imported_names.add(a.asname or a.name)
+        shared_names_here = module_mut[path] | (imported_names & all_module_mut)
+
+        def is_class_ref(e):
+            if isinstance(e, ast.Name):
+                return e.id in classes or e.id == "cls"
+            if isinstance(e, ast.Call) and isinstance(e.func, ast.Name) and e.func.id == "type" and len(e.args) == 1:
+                return True
+            if isinstance(e, ast.Attribute) and e.attr == "__class__":
+                return True
+            if isinstance(e, ast.Attribute) and e.attr in classes:  # module.ClassName
+                return True
+            return False
+
+        def is_module_ref(e):
+            while isinstance(e, ast.Attribute):
+                e = e.value
+            return isinstance(e, ast.Name) and e.id in modules
+
+        def visit_function(fn):
+            local = bound_names(fn) | assigned_names(fn) if not isinstance(fn, ast.Lambda) else set()
+            declared = set()
+            body_nodes = []
+
+            def collect(node):
+                for child in ast.iter_child_nodes(node):
+                    if isinstance(child, (ast.FunctionDef, ast.AsyncFunctionDef, ast.Lambda)):
+                        visit_function(child)
+                        continue
+                    if isinstance(child, ast.ClassDef):
+                        continue
+                    body_nodes.append(child)
+                    collect(child)
+
+            collect(fn)
+            nonlocals = set()
+            for n in body_nodes:
+                if isinstance(n, (ast.Global, ast.Nonlocal)):
+                    declared |= set(n.names)
+                if isinstance(n, ast.Nonlocal):
+                    nonlocals |= set(n.names)
+            local_only = local - declared
+
+            def is_shared_container(e):
+                if isinstance(e, ast.Attribute) and is_class_ref(e.value):
+                    return True
+                if isinstance(e, ast.Attribute) and isinstance(e.value, ast.Name) and e.value.id == "self" and e.attr in class_mut:
+                    return True
+                if isinstance(e, ast.Name) and e.id in shared_names_here and e.id not in local_only:
+                    return True
+                if isinstance(e, ast.Attribute) and is_module_ref(e.value) and e.attr in all_module_mut:
+                    return True
+                return False
+
+            def target(t, deleting=False):
+                if isinstance(t, (ast.Tuple, ast.List)):
+                    for x in t.elts:
+                        target(x, deleting)
+                elif isinstance(t, ast.Starred):
+                    target(t.value, deleting)
+                elif isinstance(t, ast.Attribute):
+                    if is_class_ref(t.value):
+                        out.append((rel, "class-attr-del" if deleting else "class-attr-rebind", ast.unparse(t)))
+                    elif is_module_ref(t.value) and not (isinstance(t.value, ast.Name) and t.value.id == "self"):
+                        out.append((rel, "module-attr-rebind", ast.unparse(t)))
+                elif isinstance(t, ast.Subscript):
+                    if is_shared_container(t.value):
+                        out.append((rel, "item-del" if deleting else "item-store", ast.unparse(t.value)))
+                elif isinstance(t, ast.Name):
+                    if t.id in declared:
+                        out.append((rel, "nonlocal-rebind" if t.id in nonlocals else "global-rebind", t.id))
+
+            for n in body_nodes:
+                if isinstance(n, ast.Assign):
+                    for t in n.targets:
+                        target(t)
+                elif isinstance(n, (ast.AugAssign, ast.AnnAssign)):
+                    if not (isinstance(n, ast.AnnAssign) and n.value is None):
+                        target(n.target)
+                elif isinstance(n, ast.Delete):
+                    for t in n.targets:
+                        target(t, True)
+                elif isinstance(n, (ast.For, ast.AsyncFor)):
+                    target(n.target)
+                elif isinstance(n, (ast.With, ast.AsyncWith)):
+                    for item in n.items:
+                        if item.optional_vars is not None:
+                            target(item.optional_vars)
+                elif isinstance(n, ast.NamedExpr):
+                    target(n.target)
+                elif isinstance(n, ast.Call):
+                    f = n.func
+                    if isinstance(f, ast.Name) and f.id in ("setattr", "delattr") and n.args:
+                        if is_class_ref(n.args[0]) or is_module_ref(n.args[0]):
+                            out.append((rel, f.id, ast.unparse(n.args[0])))
+                    elif isinstance(f, ast.Attribute) and f.attr in MUTATORS and is_shared_container(f.value):
+                        out.append((rel, "mutating-call", ast.unparse(f.value) + "." + f.attr))
+
+        def top(node):
+            for child in ast.iter_child_nodes(node):
+                if isinstance(child, (ast.FunctionDef, ast.AsyncFunctionDef, ast.Lambda)):
+                    visit_function(child)
+                else:
+                    top(child)
+
+        top(tree)
+    return sorted(set(out))
+
+
 def generate(write):
     import sly.yacc
 
@@ -286,6 +454,11 @@ def generate(write):
     body += "/-- class-level attributes bound to a fresh instance `Name()` : (file, class, attribute, constructor) -/\n"
     body += "def classInstances : List (String × String × String × String) := [\n  " + ",\n  ".join(
         f"({lstr(f)}, {lstr(c)}, {lstr(a)}, {lstr(k)})" for f, c, a, k in class_instances()
+    ) + "]\n\n"
+    body += "/-- every statement inside a function body of montepy/ that writes class-level or module-level state at run\n"
+    body += "    time: (file, kind, target).  See tools/extractors/c17_setters.py:runtime_shared_writes for the kinds. -/\n"
+    body += "def runtimeSharedWrites : List (String × String × String) := [\n  " + ",\n  ".join(
+        f"({lstr(f)}, {lstr(k)}, {lstr(t)})" for f, k, t in runtime_shared_writes()
     ) + "]\n\n"
     body += "end MontePyVerif.Gen.Setters\n"
     write("Setters.lean", body)
